@@ -1213,8 +1213,11 @@ impl TieredEngine {
         // Only search cold tier if it has documents (dimension > 0)
         let cold_results = if cold_tier_has_docs {
             let effective_ef_search = ef_search_override.or(Some(self.config.hnsw_ef_search));
-            self.cold_tier
-                .knn_search_with_ef(query, k * 2, effective_ef_search)?
+            self.cold_tier.knn_search_with_ef(
+                query,
+                cold_candidate_count(k),
+                effective_ef_search,
+            )?
         } else {
             vec![]
         };
@@ -1438,9 +1441,11 @@ impl TieredEngine {
 
         let cold_results = if cold_tier_has_docs {
             let effective_ef_search = ef_search_override.unwrap_or(self.config.hnsw_ef_search);
-            let results =
-                self.cold_tier
-                    .knn_search_batch(&miss_queries, k * 2, Some(effective_ef_search))?;
+            let results = self.cold_tier.knn_search_batch(
+                &miss_queries,
+                cold_candidate_count(k),
+                Some(effective_ef_search),
+            )?;
             {
                 let mut stats = self.stats.write();
                 stats.cold_tier_searches += miss_indices.len() as u64;
@@ -2003,7 +2008,7 @@ impl TieredEngine {
                         let _worker_permit = worker_permit;
                         cold_tier.knn_search_with_ef_cancel(
                             &query_vec,
-                            k * 2,
+                            cold_candidate_count(k),
                             effective_ef_search,
                             Some(cold_cancel_worker.as_ref()),
                         )
@@ -2589,6 +2594,16 @@ fn normalize_in_place_if_needed(distance: DistanceMetric, embedding: &mut [f32])
     }
 
     Ok(())
+}
+
+/// Largest `k` the cold tier accepts (`HnswBackend::knn_search*` refuses more).
+const COLD_TIER_MAX_K: usize = 10_000;
+
+/// Number of cold-tier candidates to fetch for a top-`k` search: twice `k` so the merge with the
+/// hot tier has slack, but never more than the cold tier accepts. Every `k` this engine admits
+/// (`k <= 10,000`) therefore yields a request the cold tier can serve and at least `k` candidates.
+fn cold_candidate_count(k: usize) -> usize {
+    k.saturating_mul(2).min(COLD_TIER_MAX_K).max(k)
 }
 
 fn normalize_query_for_search<'a>(
